@@ -180,6 +180,20 @@ def agree(req, rep):
     mg = {g[0]: g for g in m["glyphs"]}
     if sorted(mg) != sorted(g[0] for g in o["glyphs"]):
         return False
+    singular = any(c[1][0] * c[1][3] - c[1][1] * c[1][2] == 0 for g in req.get("case", {}).get("fd", {}).get("glyphs", [])
+                   for c in g["components"])
+    if singular:
+        # a singular component matrix (det 0) makes contour DIRECTION depend on the order in which equal-depth glyphs are visited
+        # (reversal is decided from determinants of partially composed matrices), and that order is the glyph set's key order -
+        # for defcon a Python set.  Direction is meaningless for a degenerate outline: the coordinates are compared as multisets
+        # per glyph (as the predicate does), advances exactly; the program comparison is left to the non-singular fonts.
+        def pts(ops):
+            return sorted(tuple(op[k:k + 2]) for op in ops for k in range(1, len(op) - 1, 2))
+        for g in o["glyphs"]:
+            e = mg[g[0]]
+            if pts(e[1]) != pts(g[1]) or e[2] != g[2]:
+                return False
+        return o.get("tag") == req["in"]["cff"] and bool(o.get("binary_ok"))
     if not all(mg[g[0]] == g for g in o["glyphs"]):        # outline, advance AND the raw program, token for token
         return False
     if o.get("tag") != req["in"]["cff"] or not o.get("binary_ok"):
